@@ -291,6 +291,8 @@ R_DIDV = [f"{_RD}.validateDID_refines", f"{_RD}.validateVMID_refines", f"{_RD}.v
 _RK = "Panacea.Refine.DidKeeper"
 R_DIDK = [f"{_RK}.vmFrom_run", f"{_RK}.findSome_vmFrom", f"{_RK}.verifyOwnership_refines", f"{_RK}.createDID_refines",
           f"{_RK}.updateDID_refines", f"{_RK}.deactivateDID_refines"]
+_RB = "Panacea.Refine.Burn"
+R_BURN = [f"{_RB}.burnCoins_refines", f"{_RB}.burnCoins_bad_address"]
 REFINE = {
     "C18": ([_RC], R_COMPKEY),
     "C01": ([_RA], R_COMPKEY + R_AOL),
@@ -301,6 +303,7 @@ REFINE = {
     "C17": ([_RT, _RC, _RD], R_VB + R_SIGNERS + R_COMPKEY + R_DIDV[-3:]),
     "C11": ([_RD, _RK], R_DIDV[-4:] + R_DIDK[3:5]),
     "C03": ([_RD, _RK], R_DIDV[3:5] + R_DIDV[6:7] + R_DIDK),
+    "C07": ([_RB], R_BURN),
     "C04": ([_RK], R_DIDK[2:]),
     "C05": ([_RK], R_DIDK[3:]),
 }
